@@ -251,3 +251,36 @@ Proof.
   eexists. split; [vm_compute; reflexivity | split; vm_compute; reflexivity].
 Qed.
 Print Assumptions zero_arity_empty_refuted.
+
+(* ---- hash ties (added when the check was strengthened after seeding, seed C19-3).
+   Atom hashes are not injective on distinct facts: the hash of a constant is that of its payload,
+   so p(/a) and p("/a"), or q(5), q(5ns) and q(epoch+5ns), share a hash. deterministic_bytes covers
+   them - its hypothesis is injectivity of the PAIR (Atom.Hash, Atom.String). *)
+From MV Require Import Serde.SimpleColumnTieProofs.
+
+(* the hypotheses of deterministic_bytes are satisfiable by two different listings of a fact set
+   whose two facts have the SAME hash (tie_hash is constant), and the conclusion holds on them
+   with an actual file *)
+Example deterministic_bytes_hash_tie_nonvacuous :
+  tie_s1 <> tie_s2 /\
+  NoDup (map fst tie_s1) /\ (forall e, In e tie_s1 -> NoDup (snd e)) /\
+  NoDup (map fst tie_s2) /\ (forall e, In e tie_s2 -> NoDup (snd e)) /\
+  (forall p, In p (map fst tie_s1) <-> In p (map fst tie_s2)) /\
+  (forall f, In f (facts_of tie_s1) <-> In f (facts_of tie_s2)) /\
+  (forall p rows r1 r2, In (p, rows) tie_s1 -> In r1 rows -> In r2 rows ->
+     tie_hash (fst p) r1 = tie_hash (fst p) r2 ->
+     atom_string bytes (fun c => c) (fst p) r1 = atom_string bytes (fun c => c) (fst p) r2 -> r1 = r2).
+Proof. exact tie_stores_in_scope. Qed.
+
+Example deterministic_bytes_hash_tie_value :
+  write bytes (fun c => c) tie_hash fixed true tie_s1 = write bytes (fun c => c) tie_hash fixed true tie_s2 /\
+  write bytes (fun c => c) tie_hash fixed true tie_s1 <> None.
+Proof. exact tie_written_equal. Qed.
+
+(* A writer that orders the facts by their hash alone (one precomputed hash per fact, no tie-break
+   on the printed form) does NOT have the property: the two listings above - same predicates, same
+   facts, key pair injective - are written differently. *)
+Theorem deterministic_bytes_hash_only_refuted :
+  write_hash_only bytes (fun c => c) tie_hash fixed tie_s1 <> write_hash_only bytes (fun c => c) tie_hash fixed tie_s2.
+Proof. exact hash_only_differs. Qed.
+Print Assumptions deterministic_bytes_hash_only_refuted.
